@@ -266,6 +266,13 @@ def run(ctx):
                       "operator %r accepts %s operands (descriptor %s, predicate %s) but the documented set is %s" % (e.key, fmt_iv(iv), e.num, vpred[e.num[0]], fmt_iv(want)),
                       where=facts.body(e.table.const_key).where(), nontrivial=e.num[0] in ("AtLeast", "Exactly", "Variadic"),
                       sample={"operator": e.key, "descriptor": list(e.num), "predicate": repr(vpred[e.num[0]]), "accepted": fmt_iv(iv), "documented": fmt_iv(want)}, fn=e.table.const_key)
+            # an operator whose operands are all evaluated (eager / data discipline) has them all *parsed* with the operation:
+            # a malformed operation anywhere among its operands is rejected whatever the data.  Moved to the lazy table,
+            # the operator decides itself what gets parsed, and wrong operand counts in the parts it skips go unnoticed.
+            if s.get("kind") in ("eager", "data"):
+                ctx.check(e.table.role in ("eager", "data"), "K1.operands-parsed", e.key,
+                          "operator %r is documented to evaluate all its operands but sits in the %s table: its operands are no longer all parsed (and length-checked) together with the operation" % (e.key, e.table.role),
+                          where=facts.body(e.table.const_key).where(), fn=e.table.const_key)
             # ---- K2
             uiv = interval_of(upred[e.num[0]], e.num, 1)
             unary_code = bool(uiv)
